@@ -166,6 +166,93 @@ def bound_names(fn, defs=None):
     return out
 
 
+# ---- canonical forms (unconditional): spellings that differ only in a way no rule should depend on
+_FLIP = {ast.Eq: ast.Eq, ast.NotEq: ast.NotEq, ast.Lt: ast.Gt, ast.Gt: ast.Lt, ast.LtE: ast.GtE, ast.GtE: ast.LtE}
+
+
+def _flat_and(a, b):
+    vals = []
+    for t in (a, b):
+        vals.extend(t.values if isinstance(t, ast.BoolOp) and isinstance(t.op, ast.And) else [t])
+    return ast.BoolOp(op=ast.And(), values=vals)
+
+
+class _Canon(ast.NodeTransformer):
+    """literal on the right of a comparison; `if not X: A else: B` read as `if X: B else: A`; `if a: if b: S` (no else
+    on either) read as `if a and b: S`; isinstance or-chains on one subject read as one isinstance with a tuple."""
+    def __init__(self):
+        self.count = 0
+
+    def visit_Compare(self, n):
+        self.generic_visit(n)
+        if len(n.ops) == 1 and type(n.ops[0]) in _FLIP and isinstance(n.left, ast.Constant) and not isinstance(n.comparators[0], ast.Constant):
+            n.left, n.comparators[0] = n.comparators[0], n.left
+            n.ops[0] = _FLIP[type(n.ops[0])]()
+            self.count += 1
+        return n
+
+    def visit_If(self, n):
+        self.generic_visit(n)
+        if n.orelse and isinstance(n.test, ast.UnaryOp) and isinstance(n.test.op, ast.Not):
+            n.test, n.body, n.orelse = n.test.operand, n.orelse, n.body
+            self.count += 1
+        while not n.orelse and len(n.body) == 1 and isinstance(n.body[0], ast.If) and not n.body[0].orelse:
+            inner = n.body[0]
+            n.test = ast.copy_location(_flat_and(n.test, inner.test), n.test)
+            n.body = inner.body
+            self.count += 1
+        return n
+
+    def visit_IfExp(self, n):
+        self.generic_visit(n)
+        if isinstance(n.test, ast.UnaryOp) and isinstance(n.test.op, ast.Not):
+            n.test, n.body, n.orelse = n.test.operand, n.orelse, n.body
+            self.count += 1
+        return n
+
+    def visit_BoolOp(self, n):
+        self.generic_visit(n)
+        if not isinstance(n.op, ast.Or):
+            return n
+
+        def isinst(v):
+            return isinstance(v, ast.Call) and isinstance(v.func, ast.Name) and v.func.id == "isinstance" and len(v.args) == 2 and not v.keywords \
+                and isinstance(v.args[0], (ast.Name, ast.Attribute))
+        out = []
+        for v in n.values:
+            if out and isinst(v) and isinst(out[-1]) and ast.dump(v.args[0]) == ast.dump(out[-1].args[0]):
+                prev = out[-1]
+                elts = (list(prev.args[1].elts) if isinstance(prev.args[1], ast.Tuple) else [prev.args[1]]) + \
+                       (list(v.args[1].elts) if isinstance(v.args[1], ast.Tuple) else [v.args[1]])
+                prev.args[1] = ast.copy_location(ast.Tuple(elts=elts, ctx=ast.Load()), prev.args[1])
+                self.count += 1
+            else:
+                out.append(v)
+        if len(out) == 1:
+            return out[0]
+        n.values = out
+        return n
+
+
+def canonicalise(tree):
+    c = _Canon()
+    c.visit(tree)
+    if c.count:
+        ast.fix_missing_locations(tree)
+    return c.count
+
+
+def _test_texts(fn):
+    """Texts of the branch tests and of the comparisons of a function (for reference-relative polarity/orientation)."""
+    tests, cmps = [], []
+    for n in ast.walk(fn):
+        if isinstance(n, (ast.If, ast.IfExp, ast.While)):
+            tests.append(ast.unparse(n.test))
+        if isinstance(n, ast.Compare) and len(n.ops) == 1:
+            cmps.append(ast.unparse(n))
+    return sorted(set(tests)), sorted(set(cmps))
+
+
 def inventory_of_tree(tree):
     inv = {"functions": {}, "globals": []}
     for st in tree.body:
@@ -182,8 +269,9 @@ def inventory_of_tree(tree):
                 q = prefix + st.name
                 d = {}
                 b = bound_names(st, d)
+                tt, cc = _test_texts(st)
                 inv["functions"][q] = {"params": [n for n, k in b if k == "param"], "locals": [[n, k] for n, k in b if k != "param"],
-                                       "defs": {n: d[n] for n, k in b if k != "param" and n in d}}
+                                       "defs": {n: d[n] for n, k in b if k != "param" and n in d}, "tests": tt, "compares": cc}
                 rec(st, q + ".")
             elif isinstance(st, ast.ClassDef):
                 inv["functions"].setdefault("class:" + prefix + st.name, {"params": [], "locals": [[s.targets[0].id, "attr"] for s in st.body if isinstance(s, ast.Assign) and isinstance(s.targets[0], ast.Name)]})
@@ -330,6 +418,35 @@ def _replace_returns(stmts, make):
     return out
 
 
+_REV = {ast.Lt: ast.Gt, ast.Gt: ast.Lt, ast.LtE: ast.GtE, ast.GtE: ast.LtE, ast.Eq: ast.Eq, ast.NotEq: ast.NotEq}
+
+
+def _orient(fn, ref_tests, ref_cmps):
+    """`if T': B else: A` where the reference tests not(T') and never T' -> `if not(T'): A else: B`;
+    `b OP' a` where the reference compares `a OP b` and never `b OP' a` -> `a OP b`.  Both are identities of Python
+    for the comparison operators concerned when one side has no reflected method that differs (which holds for the
+    builtin operands the repository compares); the rewrite is logged."""
+    count = 0
+    for n in ast.walk(fn):
+        if isinstance(n, ast.Compare) and len(n.ops) == 1 and type(n.ops[0]) in _REV and ast.unparse(n) not in ref_cmps:
+            flipped = ast.Compare(left=n.comparators[0], ops=[_REV[type(n.ops[0])]()], comparators=[n.left])
+            if ast.unparse(flipped) in ref_cmps:
+                n.left, n.comparators, n.ops = flipped.left, flipped.comparators, flipped.ops
+                count += 1
+    for n in ast.walk(fn):
+        if isinstance(n, (ast.If, ast.IfExp)) and (n.orelse if isinstance(n, ast.If) else True):
+            t = ast.unparse(n.test)
+            if t in ref_tests:
+                continue
+            neg = _negate(n.test)
+            if ast.unparse(neg) in ref_tests:
+                n.test, n.body, n.orelse = neg, n.orelse, n.body
+                count += 1
+    if count:
+        ast.fix_missing_locations(fn)
+    return count
+
+
 class ModuleNormaliser:
     def __init__(self, tree, inv):
         self.tree = tree
@@ -389,6 +506,13 @@ class ModuleNormaliser:
     def run(self):
         if self.inv is None:
             return self
+        # 0. polarity of if/else and orientation of comparisons relative to the reference
+        for q, (fn, owner, cls) in self.defs.items():
+            ref = self.inv.get("functions", {}).get(q)
+            if ref and "tests" in ref:
+                k = _orient(fn, set(ref["tests"]), set(ref["compares"]))
+                if k:
+                    self.log.append(f"{q}: {k} branch polarity / comparison orientation(s) read as in the reference")
         consts = self.new_constants()
         # 1. constants
         if consts:
@@ -569,9 +693,11 @@ class ModuleNormaliser:
             return None
         mapping, prelude, rename = b
         body = [s for s in helper.body if not _is_doc(s)]
-        body = tailify(body)
-        if body is None:
-            return None
+        if mode != "return":
+            # the caller goes on after the call: early returns of the helper have to become if/else structure
+            body = tailify(body)
+            if body is None:
+                return None
         # parameters the helper re-assigns
         subst = {}
         for p, v in mapping.items():
@@ -632,8 +758,11 @@ class ModuleNormaliser:
                 return [ast.Assign(targets=[clone(tg)], value=e)]
             new = _replace_returns(new, mk)
         else:
+            # `return helper(..)`: the helper's returns are the caller's returns; falling off the helper's end returns None
             if not _always_returns(new):
-                return None
+                fnq = self.defs[q][0]
+                if not (fnq.body and fnq.body[-1] is st):
+                    new = new + [ast.Return(value=ast.Constant(value=None))]
         res = prelude + new
         if not res:
             res = [ast.Pass()]
@@ -859,17 +988,24 @@ class ModuleNormaliser:
                 fv = free_names(st.value)
                 if v in fv:
                     continue
-                # no free variable of the expression is re-bound after the definition
+                uses = [n for n in ast.walk(fn) if isinstance(n, ast.Name) and n.id == v and isinstance(n.ctx, ast.Load)]
+                # no free variable of the expression is re-bound between the definition and its last use (anywhere after
+                # the definition when a use sits in a loop the definition is outside of: the next iteration sees it)
+                horizon = max([u._ord for u in uses], default=st._ord)
+                loops = [l for l in ast.walk(fn) if isinstance(l, (ast.For, ast.While, ast.AsyncFor))]
+                for l in loops:
+                    inside = {id(x) for x in ast.walk(l)}
+                    if id(st) not in inside and any(id(u) in inside for u in uses):
+                        horizon = float("inf")
                 later = False
                 for name in fv:
                     for b in assigns.get(name, []):
-                        if b is not st and b._ord > st._ord:
+                        if b is not st and st._ord < b._ord <= horizon:
                             later = True
                 if later:
                     continue
                 # the definition must dominate its uses: require it to be at the top level of the function or
                 # every use to be inside the same block after it
-                uses = [n for n in ast.walk(fn) if isinstance(n, ast.Name) and n.id == v and isinstance(n.ctx, ast.Load)]
                 if any(u._ord < st._ord for u in uses):
                     continue
                 block = self._block_of(fn, st)
@@ -897,9 +1033,18 @@ class ModuleNormaliser:
         """`t = f(..)` (any call) used exactly once, in the statement that follows immediately: put the call where t is
         used, provided everything that statement evaluates before that point is pure and is not read through the
         call's receiver (same assumption as for propagation: a method changes its receiver's subtree only)."""
-        if not isinstance(st.value, ast.Call):
-            return False
         uses = [n for n in ast.walk(fn) if isinstance(n, ast.Name) and n.id == v and isinstance(n.ctx, ast.Load)]
+        calls = [c for c in ast.walk(st.value) if isinstance(c, ast.Call) and not is_pure(c)]
+        whole = False
+        if len(uses) == 1:
+            blk = self._block_of(fn, st)
+            if blk is not None and blk.index(st) + 1 < len(blk):
+                nx = blk[blk.index(st) + 1]
+                whole = (isinstance(nx, ast.If) and nx.test is uses[0]) or (isinstance(nx, (ast.Return, ast.Expr)) and nx.value is uses[0]) \
+                    or (isinstance(nx, ast.Assign) and nx.value is uses[0] and all(isinstance(t, ast.Name) for t in nx.targets))
+        if not whole and (not calls or any(isinstance(x, (ast.Lambda, ast.ListComp, ast.SetComp, ast.DictComp, ast.GeneratorExp, ast.NamedExpr, ast.Await, ast.Yield, ast.YieldFrom))
+                                           for x in ast.walk(st.value))):
+            return False
         if len(uses) != 1:
             return False
         block = self._block_of(fn, st)
@@ -909,7 +1054,9 @@ class ModuleNormaliser:
         if i + 1 >= len(block):
             return False
         nxt = block[i + 1]
-        if not isinstance(nxt, (ast.Assign, ast.Return, ast.Expr, ast.AugAssign)) or nxt.value is None or not any(u is uses[0] for u in ast.walk(nxt.value)):
+        slot = "test" if isinstance(nxt, ast.If) else "value"
+        if not isinstance(nxt, (ast.Assign, ast.Return, ast.Expr, ast.AugAssign, ast.If)) or getattr(nxt, slot) is None \
+                or not any(u is uses[0] for u in ast.walk(getattr(nxt, slot))):
             return False
         order, parents = [], {}
 
@@ -918,7 +1065,7 @@ class ModuleNormaliser:
             order.append(n)
             for ch in ast.iter_child_nodes(n):
                 dfs(ch, n)
-        dfs(nxt.value, None)
+        dfs(getattr(nxt, slot), None)
         pos = [k for k, n in enumerate(order) if n is uses[0]][0]
         anc, p_ = set(), parents[id(uses[0])]
         while p_ is not None:
@@ -926,24 +1073,22 @@ class ModuleNormaliser:
             p_ = parents[id(p_)]
         if any(isinstance(a, (ast.Lambda, ast.ListComp, ast.SetComp, ast.DictComp, ast.GeneratorExp, ast.IfExp, ast.BoolOp)) for a in order if id(a) in anc):
             return False
-        recv = None
-        if isinstance(st.value.func, ast.Attribute):
-            recv = " ".join(ast.unparse(st.value.func.value).split())
+        recvs = [" ".join(ast.unparse(c.func.value).split()) for c in calls if isinstance(c.func, ast.Attribute)]
         for n in order[:pos]:
             if id(n) in anc:
                 continue
             if isinstance(n, ast.Call) and not is_pure(n):
                 return False
-            if recv and isinstance(n, (ast.Attribute, ast.Subscript)):
+            if recvs and isinstance(n, (ast.Attribute, ast.Subscript)):
                 k = " ".join(ast.unparse(n).split())
-                if k == recv or k.startswith(recv + ".") or k.startswith(recv + "["):
+                if any(k == recv or k.startswith(recv + ".") or k.startswith(recv + "[") for recv in recvs):
                     return False
         if isinstance(nxt, ast.Assign) and not all(is_pure(_loadify(t)) for t in nxt.targets):
             return False
         par = parents[id(uses[0])]
         new = st.value
         if par is None:
-            nxt.value = new
+            setattr(nxt, slot, new)
         else:
             for field, val in ast.iter_fields(par):
                 if val is uses[0]:
